@@ -67,6 +67,9 @@ func c13(env *core.Env) {
 	g := reg.NewGen(c, m, cfg)
 	h := reg.NewHandles()
 	n := c.Range("nops", 10, 40)
+	if env.Tier == "thorough" && c.Bool("deep", 1, 3) {
+		n = c.Range("nops.deep", 40, 160)
+	}
 	env.Sample("prefix=%q siblings outside=%v view repos=%v", prefix, outside, cfg.Repos)
 	scopeOn := c.Bool("scope", 2, 3)
 	for i := 0; i < n; i++ {
